@@ -18,7 +18,7 @@ PASS_THROUGH = (
 
 class Gate:
     """one condition an accept site is control dependent on."""
-    __slots__ = ('kind', 'what', 'operands', 'fn', 'block', 'line', 'callee', 'args', 'edge', 'const_ops', 'truth', 'negated', 'dom', 'param', 'quant', 'chain')
+    __slots__ = ('kind', 'what', 'operands', 'fn', 'block', 'line', 'callee', 'args', 'edge', 'const_ops', 'truth', 'negated', 'dom', 'param', 'quant', 'chain', 'targs', 'tcall')
 
     def __init__(self, kind, what, operands, fn, block, line, callee=None, args=None, edge=None, const_ops=None):
         self.kind = kind          # 'cmp' | 'call' | 'deleg' | 'match' | 'opaque'
@@ -38,6 +38,8 @@ class Gate:
         self.param = None     # the switch inspects a Result / Option that is a parameter of this function (decided by the caller's argument)
         self.quant = None     # this test is the body of a quantified predicate (`any` / `all` / `find` / `position`): the quantifier's callee
         self.chain = None     # 'or' / 'and' for the parts of a short-circuit chain held in a variable (`a || b`, `a && b`)
+        self.targs = None     # deleg: the type arguments of the call (a generic callee's trait calls on its type parameters resolve through them)
+        self.tcall = None     # call: (trait, method) of a call to a local trait's method on a type parameter, not resolvable inside the generic body
 
     def all_atoms(self):
         out = set()
@@ -73,6 +75,23 @@ SEQ_PASS = ('core::slice::<impl [T]>::iter', 'std::iter::IntoIterator::into_iter
             'core::array::<impl [T; N]>::as_slice', 'core::array::<impl [T; N]>::each_ref')
 
 
+class Part(set):
+    """the atoms of one item of a sequence put together from separate values; `op` = the operand it was listed as (same function), so that a
+    test of one field of the item can be read field by field"""
+    op = None
+
+
+def _part_read(fd, part, path):
+    """what a predicate's parameter path reads when the parameter stands for this item"""
+    op = getattr(part, 'op', None)
+    if op is not None and path and op.get('k') in ('copy', 'move'):
+        root, pp = fd.resolve_place(op['pl'])
+        r = fd.read(root, tuple(pp) + tuple(path))
+        if r:
+            return r
+    return part
+
+
 def _seq_parts(eng, fd, op, depth=0):
     """the items of a sequence operand put together from separate values, in order: an array literal `[a, b, c]`, `x.chain(y)`, `once(v)`,
     views of those (borrows, unsizing, `iter`, `into_iter`, `copied` ...) and such a sequence returned by a local helper (instantiated at the
@@ -96,7 +115,12 @@ def _seq_parts(eng, fd, op, depth=0):
     if kind == 'assign':
         rv = x['rv']
         if rv['k'] == 'agg' and rv.get('ak') == 'array':
-            return [set(fd.read_op(o)) for o in rv['ops']]
+            out = []
+            for o in rv['ops']:
+                pt = Part(fd.read_op(o))
+                pt.op = o
+                out.append(pt)
+            return out
         if rv['k'] in ('use', 'cast') and rv['op']['k'] in ('copy', 'move'):
             return _seq_parts(eng, fd, rv['op'], depth + 1)
         if rv['k'] in ('ref', 'rawptr'):
@@ -128,6 +152,26 @@ def _seq_parts(eng, fd, op, depth=0):
             out.append(inst)
         return out
     return None
+
+
+def _targs_of_path(full, base):
+    """type arguments written after a function path: `m::f::<A, B<C>>` -> ['A', 'B<C>']"""
+    if not full.startswith(base + '::<') or not full.endswith('>'):
+        return None
+    inner, out, depth, cur = full[len(base) + 3:-1], [], 0, ''
+    for ch in inner:
+        if ch in '<([':
+            depth += 1
+        elif ch in '>)]':
+            depth -= 1
+        if ch == ',' and depth == 0:
+            out.append(cur.strip())
+            cur = ''
+        else:
+            cur += ch
+    if cur.strip():
+        out.append(cur.strip())
+    return out
 
 
 class Frame:
@@ -294,8 +338,24 @@ def _payload_gate(eng, fd, call, bi, line, depth):
     return g
 
 
+def _tuple_member(fd, pl):
+    """`(_t.k)..` where `_t = (a, b, ..)` was put together in this body (`match (f(x), g(y)) { (Ok(a), Ok(b)) => .. }`): the same place on the member"""
+    ps = pl.get('p') or []
+    if not ps or ps[0]['k'] != 'field' or not str(ps[0]['n']).isdigit() or fd.is_param(pl['l']):
+        return pl
+    ds = [d for d in fd.defs.get(pl['l'], []) if not d[2].get('dst', {}).get('p')]
+    if len(ds) == 1 and ds[0][0] == 'assign' and ds[0][2]['rv']['k'] == 'agg' and ds[0][2]['rv'].get('ak') == 'tuple':
+        ops = ds[0][2]['rv']['ops']
+        k = int(ps[0]['n'])
+        if k < len(ops) and ops[k]['k'] in ('copy', 'move'):
+            return {'l': ops[k]['pl']['l'], 'p': list(ops[k]['pl'].get('p') or []) + list(ps[1:])}
+    return pl
+
+
 def _classify_value(eng, fd, pl, bi, line, depth, payload=False, _def=None):
     body = fd.body
+    if _def is None:
+        pl = _tuple_member(fd, pl)
     l = pl['l']
     if depth > 12:
         return Gate('opaque', 'deep', [fd.read_place(pl)], body.path, bi, line)
@@ -321,6 +381,7 @@ def _classify_value(eng, fd, pl, bi, line, depth, payload=False, _def=None):
                     tgt2 = local_target(eng, x2)
                     if tgt2 is not None:
                         subs.append(Gate('deleg', tgt2, [fd.read_op(a) for a in x2['args']], body.path, bi, x2.get('line', line), callee=tgt2, args=x2['args']))
+                        subs[-1].targs = x2.get('targs')
                     elif (x2.get('callee') or '') in PASS_THROUGH and x2['args'] and x2['args'][0]['k'] in ('copy', 'move') and depth < 10:
                         subs.append(_classify_value(eng, fd, x2['args'][0]['pl'], bi, x2.get('line', line), depth + 1))      # bool::from(ct_choice) ...
                     elif depth < 10:
@@ -381,8 +442,10 @@ def _classify_value(eng, fd, pl, bi, line, depth, payload=False, _def=None):
                 pg = _payload_gate(eng, fd, x, bi, x.get('line', line), depth)
                 if pg is not None:
                     return pg
-            return Gate('deleg', tgt, [fd.read_op(a) for a in x['args']], body.path, bi, x.get('line', line),
-                        callee=tgt, args=x['args'])
+            gd = Gate('deleg', tgt, [fd.read_op(a) for a in x['args']], body.path, bi, x.get('line', line),
+                      callee=tgt, args=x['args'])
+            gd.targs = x.get('targs')
+            return gd
         if callee in PASS_THROUGH and x['args'] and x['args'][0]['k'] in ('copy', 'move'):
             return _classify_value(eng, fd, x['args'][0]['pl'], bi, line, depth + 1, payload and callee in ('std::ops::Try::branch', 'std::result::Result::<T, E>::map_err'))
         short = callee.split('::')[-1]
@@ -395,7 +458,9 @@ def _classify_value(eng, fd, pl, bi, line, depth, payload=False, _def=None):
                 m = dm[0][2]
                 it, F = m['args'][0], m['args'][1]
                 if F.get('k') == 'const' and F.get('fn') in eng.prog.bodies:
-                    return Gate('deleg', F['fn'], [fd.read_op(it)], body.path, bi, x.get('line', line), callee=F['fn'], args=[it])
+                    gd = Gate('deleg', F['fn'], [fd.read_op(it)], body.path, bi, x.get('line', line), callee=F['fn'], args=[it])
+                    gd.targs = _targs_of_path(F.get('fn_full') or '', F['fn'])
+                    return gd
                 if F.get('k') in ('copy', 'move') and not F['pl'].get('p'):
                     r0 = fd.resolve_place(F['pl'])[0]
                     if fd.is_param(r0) and body.kind != 'Closure':
@@ -479,6 +544,13 @@ def _classify_value(eng, fd, pl, bi, line, depth, payload=False, _def=None):
                         continue
                     if g2.kind in ('match', 'opaque'):
                         continue
+                    if g2.kind == 'deleg' and getattr(eng, '_ga', None) is not None and depth < 6 and g2.callee in eng.prog.bodies:
+                        # the predicate hands the item to a local function (`all(|side| Self::verify_of_square(side.proof, g, h, n))`): what
+                        # that function's verdict depends on, first in the predicate's terms (when it has one way to succeed), then in ours
+                        alts = eng._ga._lift_paths(cfd, g2.callee, g2.args, True, (body.path, cfd.body.path), want=(g2.truth is not False), targs=g2.targs) or []
+                        if len(alts) == 1 and alts[0]:
+                            stack.extend(g3 for g3 in alts[0] if g3.kind != 'deleg')
+                            continue
                     for elem in elems:
                         ops2 = []
                         for o in g2.operands:
@@ -490,7 +562,7 @@ def _classify_value(eng, fd, pl, bi, line, depth, payload=False, _def=None):
                                     if k is not None and str(k).isdigit() and int(k) < len(ci[1]):
                                         oo |= rewrap(a, fd.read_op(ci[1][int(k)]))
                                 elif st[0] == 'p':
-                                    oo |= rewrap(a, elem)
+                                    oo |= rewrap(a, _part_read(fd, elem, st[2]))
                                 else:
                                     oo.add(a)
                             ops2.append(oo)
@@ -500,6 +572,9 @@ def _classify_value(eng, fd, pl, bi, line, depth, payload=False, _def=None):
                 g = Gate('multi', 'quantified:' + short, [whole.all_atoms()], body.path, bi, line)
                 g.args = subs
                 return g
+        # `cond.then_some(v)` / `cond.then(|| v)`: Some exactly when the boolean is true
+        if callee in ('core::bool::<impl bool>::then_some', 'core::bool::<impl bool>::then') and x['args'] and x['args'][0]['k'] in ('copy', 'move') and depth < 10:
+            return _classify_value(eng, fd, x['args'][0]['pl'], bi, line, depth + 1)
         # Option / Result combinators that decide Some-ness from their parts
         if callee.startswith(('std::option::Option', 'std::result::Result')) and short in ('zip', 'and', 'filter', 'is_some_and', 'is_ok_and', 'and_then', 'then_some') \
                 and x['args'] and x['args'][0]['k'] in ('copy', 'move') and depth < 10:
@@ -547,7 +622,10 @@ def _classify_value(eng, fd, pl, bi, line, depth, payload=False, _def=None):
         if len(per) > len(ops):
             ops.append(per[-1])
         ops = [per[i] if i < len(per) else o for i, o in enumerate(ops)] + ops[len(x['args']):]
-        return Gate('call', callee, ops, body.path, bi, x.get('line', line), callee=callee, args=x['args'])
+        gc = Gate('call', callee, ops, body.path, bi, x.get('line', line), callee=callee, args=x['args'])
+        if x.get('trait') and x.get('callee_local') and not x.get('resolved'):
+            gc.tcall = (x['trait'], callee.split('::')[-1])
+        return gc
     return Gate('match', 'value', [fd.read_place(pl)], body.path, bi, line)
 
 
@@ -573,6 +651,8 @@ def accept_blocks(fd, want=True):
                         out.append((bi, 'boolvar', rv['op']['pl']))
                     elif rv['k'] == 'unop' and rv['op'] == 'Not' and rv['a']['k'] in ('copy', 'move'):
                         out.append((bi, 'boolvar', rv['a']['pl']))
+                    elif rv['k'] == 'binop' and rv['op'] in CMP_BINOPS:
+                        out.append((bi, 'boolret', ('assign', bi, s)))
             t = blk['term']
             if t['k'] == 'call' and t['dst']['l'] == 0 and not t['dst'].get('p') and 'panic' not in (t.get('callee') or ''):
                 out.append((bi, 'tail', t))
@@ -589,6 +669,9 @@ def accept_blocks(fd, want=True):
                     out.append((bi, 'true', None))
                 elif rv['k'] == 'use' and rv['op']['k'] in ('copy', 'move') and ret_ty == 'bool':
                     out.append((bi, 'boolvar', rv['op']['pl']))
+                elif ret_ty == 'bool' and ((rv['k'] == 'binop' and rv['op'] in CMP_BINOPS) or (rv['k'] == 'unop' and rv['op'] == 'Not')):
+                    # the verdict computed by the returning statement itself (`a.cmp0() != Less && m.significant_bits() <= bits`: the last operand)
+                    out.append((bi, 'boolret', ('assign', bi, s)))
                 elif rv['k'] == 'use' and rv['op']['k'] in ('copy', 'move') and not rv['op']['pl'].get('p'):
                     d = single_def(fd, rv['op']['pl']['l'])
                     if d is not None and d[0] == 'call':
@@ -617,6 +700,8 @@ class GateAnalysis:
     def __init__(self, eng):
         self.eng = eng
         self._paths = {}
+        if getattr(eng, '_ga', None) is None:
+            eng._ga = self       # (lets the classification of a predicate follow a local function the predicate hands its item to)
 
     def block_gates(self, fd, bi):
         body = fd.body
@@ -679,7 +764,17 @@ class GateAnalysis:
             out.extend(self._flatten(s))
         return out
 
-    def _lift_paths(self, fd, callee, args, dom, _stack, depth=0, want=True):
+    def _trait_impl(self, tcall, targs):
+        """the body of `<X as Trait>::method` for the one type argument X of the call that implements the (local) trait"""
+        trait, meth = tcall
+        hits = []
+        for x in targs or []:
+            p = '<%s as %s>::%s' % (x, trait, meth)
+            if p in self.eng.prog.bodies:
+                hits.append(p)
+        return hits[0] if len(hits) == 1 else None
+
+    def _lift_paths(self, fd, callee, args, dom, _stack, depth=0, want=True, targs=None):
         """accept paths of `callee` as gate lists in the terms of the calling body `fd` (arguments `args`).  A callee gate that inspects a
         Result / Option *parameter* is decided by the caller's argument: it is replaced by the classification of that argument here (and, when
         the argument comes from another local call, by that call's accept paths)."""
@@ -691,13 +786,34 @@ class GateAnalysis:
             lifted = []
             extra = [[]]
             for g in cp['gates']:
+                if g.kind == 'call' and g.tcall is not None and targs and depth < 6:
+                    # a method of a local trait called on a type parameter of the callee: this call's type arguments say which impl runs
+                    impl = self._trait_impl(g.tcall, targs)
+                    if impl is not None and impl not in _stack:
+                        cfd = self.eng.fndep(callee)
+                        alts = []
+                        for alt in (self._lift_paths(cfd, impl, g.args, g.dom, _stack, depth + 1, want=(g.truth is not False)) or [[]]):
+                            la = []
+                            for g3 in alt:
+                                ops3 = []
+                                for o in g3.operands:
+                                    oo = set()
+                                    for a in o:
+                                        oo |= fd._inst_atom(a, args)
+                                    ops3.append(oo)
+                                n3 = Gate(g3.kind, g3.what, ops3, g3.fn, g3.block, g3.line, g3.callee, None, g3.edge, g3.const_ops)
+                                n3.truth, n3.dom, n3.quant = g3.truth, and_dom(g3.dom, and_dom(g.dom, dom)), g3.quant
+                                la.append(n3)
+                            alts.append(la)
+                        extra = [e + a for e in extra for a in alts][:64]
+                        continue
                 if g.kind == 'fnparam' and g.param is not None and g.param - 1 < len(args) and depth < 6:
                     F = args[g.param - 1]
                     if F.get('k') == 'const' and F.get('fn') in self.eng.prog.bodies:
                         # the function handed in decides: its accept paths, first in the callee's terms (items stand for its argument), then in ours
                         cfd = self.eng.fndep(callee)
                         alts = []
-                        for alt in (self._lift_paths(cfd, F['fn'], g.args, g.dom, _stack, depth + 1) or [[]]):
+                        for alt in (self._lift_paths(cfd, F['fn'], g.args, g.dom, _stack, depth + 1, targs=_targs_of_path(F.get('fn_full') or '', F['fn'])) or [[]]):
                             la = []
                             for g3 in alt:
                                 ops3 = []
@@ -722,7 +838,7 @@ class GateAnalysis:
                         subs.append(s2)
                     for s2 in subs:
                         if s2.kind == 'deleg':
-                            alts = self._lift_paths(fd, s2.callee, s2.args, s2.dom, _stack, depth + 1) or [[]]
+                            alts = self._lift_paths(fd, s2.callee, s2.args, s2.dom, _stack, depth + 1, targs=s2.targs) or [[]]
                             extra = [e + a for e in extra for a in alts][:64]
                         else:
                             lifted.append(s2)
@@ -775,6 +891,7 @@ class GateAnalysis:
                 tgt = local_target(self.eng, extra)
                 if tgt is not None:
                     dgt = Gate('deleg', tgt, [], path, bi, extra.get('line'), callee=tgt, args=extra['args'])
+                    dgt.targs = extra.get('targs')
                     dgt.dom = True
                     delegs.append(dgt)
                 elif (extra.get('callee') or '') in PASS_THROUGH and extra['args'] and extra['args'][0]['k'] in ('copy', 'move'):
@@ -789,7 +906,7 @@ class GateAnalysis:
                 else:
                     # the value of a library call returned as it is (`items.map(test).reduce(|a, c| a | c).map_or(false, bool::from)`): what it is
                     # computed from; for a predicate the returned boolean is the verdict asked for
-                    g = _classify_value(self.eng, fd, {'l': 0}, bi, extra.get('line'), 0)
+                    g = _classify_value(self.eng, fd, {'l': 0}, bi, extra.get('line'), 0, _def=('call', bi, extra))
                     if g.kind == 'multi':
                         g.dom = True
                         if fd.body.local_ty(0) == 'bool':
@@ -799,13 +916,21 @@ class GateAnalysis:
                                 delegs.append(g2)
                             else:
                                 direct.append(g2)
+                    elif g.kind in ('deleg', 'fnparam'):
+                        # `items.map(check).collect()` returned as it is: success is decided by the function applied to every item
+                        g.dom = True
+                        (delegs if g.kind == 'deleg' else direct).append(g)
                     else:
                         gt = Gate('call', extra.get('callee') or '?', [fd.read_op(a) for a in extra['args']],
                                   path, bi, extra.get('line'), callee=extra.get('callee'), args=extra['args'])
                         gt.dom = True
                         direct.append(gt)
-            elif kind == 'boolvar':
-                g = _classify_value(self.eng, fd, extra, bi, None, 0)
+            elif kind in ('boolvar', 'boolret'):
+                if kind == 'boolret':
+                    g = _classify_value(self.eng, fd, {'l': 0}, bi, None, 0, _def=extra)
+                    g.truth = (not want) if g.negated else want
+                else:
+                    g = _classify_value(self.eng, fd, extra, bi, None, 0)
                 g.dom = True      # the returned boolean itself
                 for g2 in self._flatten(g):
                     if g2.kind == 'deleg':
@@ -814,7 +939,7 @@ class GateAnalysis:
                         direct.append(g2)
             combos = [list(direct)]
             for dg in delegs:
-                lifted_alts = self._lift_paths(fd, dg.callee, dg.args, dg.dom, _stack + (path,), want=(dg.truth is not False))
+                lifted_alts = self._lift_paths(fd, dg.callee, dg.args, dg.dom, _stack + (path,), want=(dg.truth is not False), targs=dg.targs)
                 if not lifted_alts:
                     lifted_alts = [[]]
                 new = []
